@@ -16,11 +16,38 @@ RULE = ('cursor at the end of and inside every sampled name read, attribute acce
         'the end of a bare name => proposals == names visible at the cursor in the analysis of the UNMARKED source; cursor after '
         '`expr.` => proposals == attribute list the unmarked analysis gives expr. Non-trivial: preceding character other than '
         'space / dot / "(", or cursor strictly inside an identifier, or an attribute assignment on the line; distinct by (text, position).')
-ASSUMPTIONS = ['identifier characters = regex \\w (what str.isidentifier accepts after the first character)',
+ASSUMPTIONS = ['identifier characters = what str.isidentifier accepts after the first character (letters, digits, underscore, combining marks ...)',
                'positions where assist raises SyntaxError on a marked text that does not parse are counted and skipped (C08 owns that rule)']
 
 MARK = '__supp_mark__'
-WORD = re.compile(r'\w*$')
+
+
+class _Word(object):
+    """the longest run of identifier characters at the end of a text (decided with str.isidentifier, not with a regex class)"""
+    class _M(object):
+        def __init__(self, g):
+            self.g = g
+
+        def group(self):
+            return self.g
+
+    def search(self, text):
+        i = len(text)
+        while i and ('a' + text[i - 1]).isidentifier():
+            i -= 1
+        return self._M(text[i:])
+
+
+WORD = _Word()
+
+
+def char_col(line, byte_col):
+    """ast columns are UTF-8 byte offsets, cursor columns count characters"""
+    return byte_col if line.isascii() else len(line.encode('utf-8')[:byte_col].decode('utf-8', 'ignore'))
+
+
+def byte_col(line, col):
+    return col if line.isascii() else len(line[:col].encode('utf-8'))
 
 
 def check_position(proj, src, pos, filename, tree_info, sh):
@@ -52,7 +79,7 @@ def check_position(proj, src, pos, filename, tree_info, sh):
         if not p.isidentifier():
             return ('proposal-not-an-identifier', '%r proposed at %s (line %r)' % (p, pos, line[:80]))
     # transparency
-    info = tree_info.get(pos)
+    info = tree_info.get((ln, byte_col(line, col)))        # the unmarked analysis is keyed by parser (byte) columns
     if info:
         kind, expected = info()
         if expected is not None and props != expected:
@@ -170,7 +197,28 @@ def synthetic_cases():
     for sep_label, h2 in (('formfeed-line', head + '\x0c\n'), ('formfeed-in-comment', head + '# a\x0cb \x1c\n'),
                           ('formfeed-in-string', head + "s = 'a\x0cb'\n"), ('crlf', head.replace('\n', '\r\n'))):
         for ident in ('fo', 'k.ba', 'K.b'):
-            out.append((h2 + 'print(' + ident + '\n', (h2.count('\n') + 1, len('print(' + ident)), 'line-separators:' + sep_label))
+            out.append((h2 + 'print(' + ident + ')\n', (h2.count('\n') + 1, len('print(' + ident)), 'line-separators:' + sep_label))
+    # non-ASCII text left of the cursor on the cursor line (parser columns are bytes, cursor columns characters): string
+    # literals, identifiers, comments; bindings made earlier on the same line must be visible
+    for p in ("s = '\u00e9\u00e9\u00e9\u00e9\u00e9'; ", '\u00e9t\u00e9 = 1; ', "q = ['\u4e2d\u6587', ", 'print("\u00fc\u00fc"); foz = 2; y = ', 'f(\u00e9t\u00e9=1, z=',
+              "'\U0001f600' if x else ", "s='\u00e9\u00e9\u00e9\u00e9\u00e9\u00e9\u00e9\u00e9\u00e9\u00e9\u00e9';foz=2;", '\u00e9\u00e9\u00e9\u00e9\u00e9\u00e9\u00e9=1;y=',
+              "w = '\u4e2d\u6587\u4e2d\u6587'; foz = k; "):
+        for ident in ('fo', 'foo', 'k.ba', 'k.', 'K.b', 'foobar', 'fooba', 'foz', 'foz.ba', '\u00e9\u00e9'):
+            line = p + ident
+            out.append((head + '\u00e9t\u00e9 = 0\n' + line + '\n', (nl + 2, len(line)), 'non-ascii-before-cursor'))
+            out.append((head + '\u00e9t\u00e9 = 0\n' + line + '; foo\n', (nl + 2, len(line)), 'non-ascii-before-cursor'))
+    # identifiers written with combining marks (NFD): the marks continue the identifier
+    for ident in ('cafe\u0301', 'cafe\u0301s', 'k.bar\u0327', 'na\u0303o_1'):
+        for p in ('', 'y = ', 'f('):
+            line = p + ident
+            out.append((head + 'cafe\u0301 = cafe\u0301s = na\u0303o_1 = 0\n' + line + '\n', (nl + 2, len(line)), 'combining-marks'))
+    # a lone carriage return is a line end for the parser (classic Mac files, a stray \r before \r\n)
+    for h2, label in ((head.replace('\n', '\r'), 'cr-only'), (head.replace('foobar = 2\n', 'foobar = 2\r'), 'one-lone-cr'),
+                      (head.replace('foobar = 2\n', 'foobar = 2\r\r\n'), 'cr-cr-lf'), (head.replace('k = K()\n', 'k = K()\r\n\r'), 'crlf-cr')):
+        nlines = len(core.plines(h2))
+        for ident in ('fo', 'foobar', 'k.ba', 'K.b'):
+            out.append((h2 + 'print(' + ident + ')\n', (nlines + 1, len('print(' + ident)), 'line-separators:' + label))
+            out.append((h2 + 'y = ' + ident + '\rz = 1\r\n', (nlines + 1, len('y = ' + ident)), 'line-separators:' + label))
     for p in NON_CODE:
         for ident in ('fo', 'k.ba'):
             line = p + ident
@@ -210,7 +258,8 @@ def w_files(job):
         for pos, pclass in positions_of(src, tree, rnd, n):
             line = lines[pos[0] - 1] if pos[0] <= len(lines) else ''
             if not line.isascii():
-                continue
+                pos = (pos[0], char_col(line, pos[1]))
+                sh.count('non-ascii-line')
             w = WORD.search(line[:pos[1]]).group()
             prev = line[pos[1] - len(w) - 1:pos[1] - len(w)] if pos[1] - len(w) > 0 else '^'
             nontrivial = prev not in (' ', '.', '(') or 'inside' in pclass or 'store' in pclass
